@@ -310,9 +310,15 @@ def read_event(prop, inst, concrete, engines=("numpy",), extra_kw=None, names="s
             las = lasio.read(concrete, engine=eng, **kw)
         except lasexc.LASHeaderError as e:
             ev["exc"] = "LASHeaderError"
-            m = re.search(r"Line (\d+) ", str(e))
-            # concrete line number -> abstract line index (1-based); one abstract line = one physical line
-            ev["excline"] = int(m.group(1)) if m else 0
+            # "naming that line": the message quotes the line's text, or gives its (1-based) line number.
+            # One abstract line = one physical line, so the index of the named line is its abstract index.
+            msg = str(e)
+            phys = concrete.replace("\r\n", "\n").split("\n")
+            named = [i + 1 for i, ln in enumerate(phys[:len(text)]) if text[i]["k"] == "junk" and ln.strip() and ln.strip() in msg]
+            if not named:
+                nums = set(int(x) for x in re.findall(r"\d+", msg))
+                named = [i + 1 for i in range(len(text)) if text[i]["k"] == "junk" and (i + 1) in nums]
+            ev["excline"] = named[0] if named else 0
             return ev
         except Exception as e:
             ev["exc"] = type(e).__name__
